@@ -49,6 +49,11 @@ func logErfc8(x float64) float64 {
     2.2605285207673269695918669450,
     1.0000000000000000000000000000 })
 
+  if x > 1e10 {
+    // P(x)/Q(x) = 1/(x sqrt(pi)) (1 + O(1/x^2)); evaluating the polynomials
+    // gives Inf/Inf = NaN for x > 1e51
+    return -math.Log(x*M_SQRTPI) - x*x
+  }
   e := P.Eval(x)/Q.Eval(x)
   e  = math.Log(e) - x*x
   return e
